@@ -764,6 +764,10 @@ class Fxp():
         _val_in = val
         val = np.array(val)
 
+        # NumPy integers among python numbers too big for a NumPy type: python integers like the rest
+        if val.dtype == object and any(isinstance(v, np.integer) for v in val.flatten()):
+            val = np.array([int(v) if isinstance(v, np.integer) else v for v in val.flatten()], dtype=object).reshape(val.shape)
+
         # narrow NumPy types (also as elements of a list or tuple) are widened: scaling, bias removal and size estimation
         # must not wrap or round in the width of the input type
         if val.dtype.kind in 'iu' and val.dtype.itemsize < 8:
@@ -776,8 +780,8 @@ class Fxp():
         # a list of python integers beyond 64 bits is turned into floats by numpy: keep the integers exact
         if isinstance(_val_in, (int, list, tuple)) and val.dtype.kind in 'fu' and val.size > 0 and np.max(np.abs(val)) >= 2**63:
             _val_obj = np.array(_val_in, dtype=object)
-            if all(isinstance(v, int) for v in _val_obj.flatten()):
-                val = _val_obj
+            if all(isinstance(v, (int, np.integer)) for v in _val_obj.flatten()):
+                val = np.array([int(v) for v in _val_obj.flatten()], dtype=object).reshape(_val_obj.shape)    # (NumPy integers among them included)
 
         if vdtype is None:
             vdtype = val.dtype
@@ -920,6 +924,8 @@ class Fxp():
                     new_val = new_val.astype(np.int64 if self.signed else np.uint64)
             
             if index is not None:
+                if self.val.dtype == object and isinstance(new_val, np.ndarray) and new_val.ndim == 0:
+                    new_val = new_val.item()      # one python integer into an array of python integers (not a 0-d array nested in it)
                 self.val[index] = new_val
             else:
                 self.val = new_val
